@@ -223,8 +223,22 @@ func (br *BlockReader) SkipNext() (*BlockMetadata, error) {
 	}
 
 	if canSeek && br.readerSize != readerSizeUnseekable {
-		// seek forward past the block data
-		finalOffset, err := brs.Seek(int64(blockSize), io.SeekCurrent)
+		// seek forward past the block data; the size a source reports for itself need not be the
+		// number of bytes it has (a section reader over a file that was cut short), so stop one
+		// byte before the end of the block and read that byte
+		if blockSize > 0 {
+			if _, err := brs.Seek(int64(blockSize)-1, io.SeekCurrent); err != nil {
+				return nil, err
+			}
+			var last [1]byte
+			if _, err := io.ReadFull(brs, last[:]); err != nil {
+				if err == io.EOF {
+					err = io.ErrUnexpectedEOF
+				}
+				return nil, err
+			}
+		}
+		finalOffset, err := brs.Seek(0, io.SeekCurrent)
 		if err != nil {
 			return nil, err
 		}
